@@ -1,3 +1,4 @@
+import os
 OUTSIDE = ("libc qsort itself (replaced by a reference insertion sort over the real comparator); the real source-address probe "
            "(socket layer stubbed at the TU boundary); more than 3 (thorough: 4) addresses per list / 3 answers per message; "
            "ares_addrinfo2hostent() extending a caller-supplied hostent (*host != NULL); answer names other than the fixed chain "
@@ -193,8 +194,31 @@ def hosts_entry_jobs(tier):
     return J
 
 
+def gai_winner_jobs(tier):
+    """'... of accepted answers for the WINNING candidate name ... none dropped': the decision taken when the last A/AAAA
+    sub-query of a candidate completes (host_callback: finish with the collected addresses, or move on to the next
+    candidate / source with nothing collected) is the subject of C12's one-step getaddrinfo walk harness (gai_walk.c,
+    completion entry e1); its single-label and multi-label AF_UNSPEC jobs are run here too."""
+    import importlib.util
+    p12 = os.path.join(os.path.dirname(os.path.abspath(__file__)), "..", "C12", "jobs.py")
+    spec = importlib.util.spec_from_file_location("jobs_C12_reuse13", p12)
+    m12 = importlib.util.module_from_spec(spec); spec.loader.exec_module(m12)
+    out = []
+    for j in m12.jobs(tier, 0):
+        n = j["name"]
+        if "walk_gai_e1" not in n:
+            continue
+        if tier == "quick" and not ("unspec" in n and ("_a_nd" in n or "_adotb_nd1" in n)):
+            continue
+        j = dict(j); j["harness"] = "../C12/" + j["harness"]
+        j["support"] = [("../C12/" + x if os.path.exists(os.path.join(os.path.dirname(p12), x)) else x) for x in j.get("support", [])]
+        out.append(j)
+    return out
+
+
 def jobs(tier, seed):
     J = []
+    J += gai_winner_jobs(tier)
     J += hosts_entry_jobs(tier)
     J += sort_jobs(tier)
     J += sortlist_jobs(tier)
